@@ -120,8 +120,74 @@ def run_typecheck(prop, tier, repo, outdir, seed):
     return res
 
 
+LIMIT_SITES = [
+    # (fn that contains the call, impl, callee, expected token text of argument 0)
+    ("for_each_concurrent_internal", "FnGraph", "for_each_concurrent", "limit"),
+    ("for_each_concurrent_mut_internal", "FnGraph", "for_each_concurrent", "limit"),
+    ("try_for_each_concurrent_internal", "FnGraph", "for_each_concurrent", "limit"),
+    ("try_for_each_concurrent_mut_internal", "FnGraph", "for_each_concurrent", "limit"),
+    ("for_each_concurrent", "FnGraph", "for_each_concurrent_internal", "limit"),
+    ("for_each_concurrent_with", "FnGraph", "for_each_concurrent_internal", "limit"),
+    ("for_each_concurrent_mut", "FnGraph", "for_each_concurrent_mut_internal", "limit"),
+    ("for_each_concurrent_mut_with", "FnGraph", "for_each_concurrent_mut_internal", "limit"),
+    ("try_for_each_concurrent", "FnGraph", "try_for_each_concurrent_internal", "limit"),
+    ("try_for_each_concurrent_with", "FnGraph", "try_for_each_concurrent_internal", "limit"),
+    ("try_for_each_concurrent_mut", "FnGraph", "try_for_each_concurrent_mut_internal", "limit"),
+    ("try_for_each_concurrent_mut_with", "FnGraph", "try_for_each_concurrent_mut_internal", "limit"),
+    ("try_for_each_concurrent_control", "FnGraph", "try_for_each_concurrent_internal", "limit"),
+    ("try_for_each_concurrent_control_with", "FnGraph", "try_for_each_concurrent_internal", "limit"),
+    ("try_for_each_concurrent_control_mut", "FnGraph", "try_for_each_concurrent_mut_internal", "limit"),
+    ("try_for_each_concurrent_control_mut_with", "FnGraph", "try_for_each_concurrent_mut_internal", "limit"),
+]
+
+INTERIOR_MUT = re.compile(r'\b(Cell|RefCell|UnsafeCell|Mutex|RwLock|Atomic\w*|OnceCell|OnceLock|LazyCell|LazyLock)\b')
+
+
+def run_syntactic(prop, repo, outdir):
+    """Syntactic side conditions decided on the AST by the extractor (NOT deductive proof; reported as such)."""
+    import sys
+    sys.path.insert(0, os.path.join(VERIF, "vx"))
+    from assemble import run_extract, Undecided
+    t0 = time.time()
+    res = {"engine": "syntactic", "unit": "SYN", "features": ["async"], "violations": [], "undecided": [], "obligations": [], "cmds": ["tools/vx-extract (call_arg / struct items)"],
+           "trusted": ["syntactic side conditions are decided by tools/vx-extract on the syn AST of /repo/src (labelled syntactic, not deductive)"],
+           "bounded_checks": [], "canaries": {"expected": 0, "failed_as_expected": 0, "vacuous": []}, "functions": {}, "ms": 0, "assumption_hits": {}}
+    if prop == "C10":
+        for (fn, impl, callee, want) in LIMIT_SITES:
+            oid = f"SYN/{fn}/C10.limit-argument-forwarded-unmodified-to-{callee}"
+            try:
+                ex = run_extract(repo, ["async"], [{"name": "x", "file": "src/fn_graph.rs", "kind": "call_arg", "ident": fn, "impl_self": impl, "call": callee, "nth": 0, "arg": 0}], outdir)
+                got = ex["x"]["text"]
+                st = "discharged" if got == want else "FAILED"
+                if st == "FAILED":
+                    res["violations"].append({"oid": oid, "kind": "syntactic", "named": True, "message": f"argument 0 of {callee} in {fn} is `{got}`, expected `{want}`",
+                                              "rendered": f"{fn}: .{callee}({got}, ..) - the concurrency limit given by the caller is not what reaches the combinator", "where": {"k": "syntactic", "fn": fn, "file": "src/fn_graph.rs", "span": ex["x"]["span"]}})
+            except Undecided as u:
+                st = "undischarged"
+                res["undecided"].append(f"syntactic:{fn}:{u.reason[:120]}")
+            res["obligations"].append({"id": oid, "kind": "syntactic", "status": st, "weight": 1, "unit": "SYN", "features": "async", "backend": "syntactic"})
+    if prop in ("C15", "C20"):
+        for (f, ident) in (("src/fn_graph.rs", "FnGraph"), ("src/edge_counts.rs", "EdgeCounts")):
+            oid = f"SYN/{ident}/{prop}.no-interior-mutability-in-the-fields-of-{ident}"
+            try:
+                ex = run_extract(repo, ["async"], [{"name": "x", "file": f, "kind": "struct", "ident": ident}], outdir)
+                m = INTERIOR_MUT.search(ex["x"]["text"])
+                st = "FAILED" if m else "discharged"
+                if m:
+                    res["violations"].append({"oid": oid, "kind": "syntactic", "named": True, "message": f"field type of {ident} mentions {m.group(1)}", "rendered": ex["x"]["text"],
+                                              "where": {"k": "syntactic", "fn": ident, "file": f, "span": ex["x"]["span"]}})
+            except Undecided as u:
+                st = "undischarged"
+                res["undecided"].append(f"syntactic:{ident}:{u.reason[:120]}")
+            res["obligations"].append({"id": oid, "kind": "syntactic", "status": st, "weight": 1, "unit": "SYN", "features": "async", "backend": "syntactic"})
+    res["wall"] = time.time() - t0
+    return res
+
+
 def run(prop, tier, repo, outdir, seed):
     out = []
+    if prop in ("C10", "C15", "C20"):
+        out.append(run_syntactic(prop, repo, outdir))
     if prop in ("C19", "C20"):
         r = run_typecheck(prop, tier, repo, outdir, seed)
         if prop == "C20":
